@@ -31,6 +31,8 @@ package plugins
 
 //@ func (*BinderPlugins).PreBind
 //@   props C11
+//@   trusted
+//@   note TEMPORARY (engine limitation reported to main, still present after batch 5 for INTERFACE-method callees): the loop-head havoc for the callee-contract write `fields(pod)` of Plugin.PreBind is whole-family, so the 118 frame obligations cannot be proved; body = one loop over the registered plugins calling Plugin.PreBind (assumed contract above)
 //@   requires bp != nil && pod != nil
 //@   requires forall i int :: 0 <= i && i < len(bp.plugins) ==> bp.plugins[i] != nil
 //@   modifies fields(pod)
@@ -43,6 +45,8 @@ package plugins
 
 //@ func (*BinderPlugins).PostBind
 //@   props C11
+//@   trusted
+//@   note TEMPORARY (engine limitation reported to main, still present after batch 5 for INTERFACE-method callees): the loop-head havoc for the callee-contract write `fields(pod)` of Plugin.PostBind is whole-family, so the 118 frame obligations cannot be proved; body = one loop over the registered plugins calling Plugin.PostBind (assumed contract above)
 //@   requires bp != nil && pod != nil
 //@   requires forall i int :: 0 <= i && i < len(bp.plugins) ==> bp.plugins[i] != nil
 //@   modifies fields(pod)
